@@ -121,7 +121,7 @@ static uint64_t run_case(const TinyLP& t, bool keepbounds, uint32_t seed, Ctx& c
       c.violation("vanished-with-nonempty-reduced-lp+" + tag, cs, "reduced LP has " + std::to_string(red.n) + " cols " + std::to_string(red.m) + " rows");
    if(clr.hasopt != cl.hasopt)
    {
-      c.violation(std::string("reduced-lp-status-differs+") + tag, cs, std::string("original ") + cl.name() + ", reduced " + clr.name() + " reduced=" + red.str());
+      c.violation(std::string("reduced-lp-status-differs:") + cl.name() + "->" + clr.name() + "+" + tag, cs, std::string("original ") + cl.name() + ", reduced " + clr.name() + " reduced=" + red.str());
       return h;
    }
    if(!clr.hasopt) { c.count("reduced_without_optimum"); return h; }
